@@ -1,6 +1,7 @@
 package main
 
-// world.go: one history = one fresh real application with three bonded oracles on "eth", three
+// world.go: one history = one fresh real application with three bonded oracles on the history's chain module
+// (chainName: "eth" or "tron"), three
 // registered bridge tokens (FX and two plain bridge tokens, set up the way the repository's own
 // keeper tests do), three users and three external addresses. apply() performs one operation
 // through the real MsgServer / real oracle claims; snapshot() reads the raw stores.
@@ -29,7 +30,26 @@ import (
 	"fxverif/lib"
 )
 
-const chainName = "eth"
+// chainName: the crosschain module the current history runs on. "eth" stands for every module with hex addresses;
+// "tron" is the one module whose contract / external addresses are base58check strings ('T…', x/tron/types).
+// Histories run one after the other; runHistory / replay set it before building the world.
+var chainName = "eth"
+
+func setChain(name string) {
+	if name == "" {
+		name = "eth"
+	}
+	chainName = name
+}
+
+// cx: the 20-byte address given in hex, in the address format of the current chain module. Base58check keeps the
+// order of the underlying bytes for strings of equal length, so token indexes stay ordered like the contract strings.
+func cx(h string) string {
+	if chainName == "tron" {
+		return crosschaintypes.ExternalAddrToStr(chainName, common.HexToAddress(h).Bytes())
+	}
+	return h
+}
 
 type Op struct {
 	Kind      string     `json:"op"`
@@ -160,16 +180,16 @@ func NewWorld(seed int64, prm [4]uint64, moduleFloat int64) *World {
 
 	// token 0: FX; tokens 1,2: plain bridge tokens as in keeper_v1_test.go AddRandomBaseToken(false); token 3: registered coin; token 4: externally owned ERC-20 registered through RegisterNativeERC20; token 5: not registered
 	w.toks = []tokenInfo{
-		{Kind: "native", Base: fxtypes.DefaultDenom, Bridge: fxtypes.DefaultDenom, Contract: contracts[0]},
-		{Kind: "ext", Base: "usda", Bridge: crosschaintypes.NewBridgeDenom(chainName, contracts[1]), Contract: contracts[1]},
-		{Kind: "ext", Base: "usdb", Bridge: crosschaintypes.NewBridgeDenom(chainName, contracts[2]), Contract: contracts[2]},
-		{Kind: "coin", Base: "usdc", Bridge: crosschaintypes.NewBridgeDenom(chainName, coinContract), Contract: coinContract},
-		{Kind: "erc", Base: "usdd", Bridge: crosschaintypes.NewBridgeDenom(chainName, ercContract), Contract: ercContract},
-		{Kind: "none", Base: "zzz", Bridge: crosschaintypes.NewBridgeDenom(chainName, "0x7777777777777777777777777777777777777777"), Contract: "0x7777777777777777777777777777777777777777"},
+		{Kind: "native", Base: fxtypes.DefaultDenom, Bridge: fxtypes.DefaultDenom, Contract: cx(contracts[0])},
+		{Kind: "ext", Base: "usda", Bridge: crosschaintypes.NewBridgeDenom(chainName, cx(contracts[1])), Contract: cx(contracts[1])},
+		{Kind: "ext", Base: "usdb", Bridge: crosschaintypes.NewBridgeDenom(chainName, cx(contracts[2])), Contract: cx(contracts[2])},
+		{Kind: "coin", Base: "usdc", Bridge: crosschaintypes.NewBridgeDenom(chainName, cx(coinContract)), Contract: cx(coinContract)},
+		{Kind: "erc", Base: "usdd", Bridge: crosschaintypes.NewBridgeDenom(chainName, cx(ercContract)), Contract: cx(ercContract)},
+		{Kind: "none", Base: "zzz", Bridge: crosschaintypes.NewBridgeDenom(chainName, cx("0x7777777777777777777777777777777777777777")), Contract: cx("0x7777777777777777777777777777777777777777")},
 	}
 	// token 3: a coin registered in x/erc20 (module-owned ERC-20, bridge denom as alias), the set-up the repository's
 	// bridge-call refund tests use; the only kind whose precompile-originated refund (ERC-20) works end to end
-	lib.Must(k.AddBridgeTokenExecuted(ctx, &crosschaintypes.MsgBridgeTokenClaim{TokenContract: coinContract, Name: "USD Coin", Symbol: "USDC", Decimals: 18, ChainName: chainName}))
+	lib.Must(k.AddBridgeTokenExecuted(ctx, &crosschaintypes.MsgBridgeTokenClaim{TokenContract: w.toks[3].Contract, Name: "USD Coin", Symbol: "USDC", Decimals: 18, ChainName: chainName}))
 	_, rerr := c.App.Erc20Keeper.RegisterCoin(ctx, &erc20types.MsgRegisterCoin{Authority: lib.GovAuthority(), Metadata: banktypes.Metadata{
 		Description: "registered coin", DenomUnits: []*banktypes.DenomUnit{{Denom: "usdc", Exponent: 0, Aliases: []string{w.toks[3].Bridge}}, {Denom: "USDC", Exponent: 18}},
 		Base: "usdc", Display: "USDC", Name: "USD Coin", Symbol: "USDC"}})
@@ -182,11 +202,11 @@ func NewWorld(seed int64, prm [4]uint64, moduleFloat int64) *World {
 	c.Mint(tokOwner.Acc(), lib.FX(10))
 	ercAddr, derr := c.DeployFIP20(tokOwner, "USD Digital", "USDD")
 	lib.Must(derr)
-	lib.Must(k.AddBridgeTokenExecuted(ctx, &crosschaintypes.MsgBridgeTokenClaim{TokenContract: ercContract, Name: "USD Digital", Symbol: "USDD", Decimals: 18, ChainName: chainName}))
+	lib.Must(k.AddBridgeTokenExecuted(ctx, &crosschaintypes.MsgBridgeTokenClaim{TokenContract: w.toks[4].Contract, Name: "USD Digital", Symbol: "USDD", Decimals: 18, ChainName: chainName}))
 	_, nerr := c.App.Erc20Keeper.RegisterNativeERC20(ctx, ercAddr, w.toks[4].Bridge)
 	lib.Must(nerr)
 	w.erc20Of = map[int]common.Address{3: w.coinErc20, 4: ercAddr}
-	lib.Must(k.AddBridgeTokenExecuted(ctx, &crosschaintypes.MsgBridgeTokenClaim{TokenContract: contracts[0], Name: "Function X", Symbol: fxtypes.DefaultDenom, Decimals: 18, ChainName: chainName}))
+	lib.Must(k.AddBridgeTokenExecuted(ctx, &crosschaintypes.MsgBridgeTokenClaim{TokenContract: w.toks[0].Contract, Name: "Function X", Symbol: fxtypes.DefaultDenom, Decimals: 18, ChainName: chainName}))
 	erc20Mod := common.BytesToAddress(authtypes.NewModuleAddress(erc20types.ModuleName).Bytes())
 	for i := 1; i <= 2; i++ {
 		t := w.toks[i]
@@ -230,8 +250,8 @@ func NewWorld(seed int64, prm [4]uint64, moduleFloat int64) *World {
 		}
 	}
 	for i, e := range extAddrs {
-		w.exts = append(w.exts, e)
-		w.extIdx[e] = i
+		w.exts = append(w.exts, cx(e))
+		w.extIdx[cx(e)] = i
 	}
 	for a := -2; a < 3; a++ {
 		w.keys = append(w.keys, acctKey{a, 0, 0})
@@ -322,12 +342,12 @@ func (w *World) mkClaim(op Op) func(n, h uint64) crosschaintypes.ExternalClaim {
 		}
 	case "ObserveResult":
 		return func(n, h uint64) crosschaintypes.ExternalClaim {
-			return &crosschaintypes.MsgBridgeCallResultClaim{EventNonce: n, BlockHeight: h, Nonce: op.Nonce, TxOrigin: extAddrs[1], Success: op.Success}
+			return &crosschaintypes.MsgBridgeCallResultClaim{EventNonce: n, BlockHeight: h, Nonce: op.Nonce, TxOrigin: w.exts[1], Success: op.Success}
 		}
 	}
 	return func(n, h uint64) crosschaintypes.ExternalClaim {
-		return &crosschaintypes.MsgSendToFxClaim{EventNonce: n, BlockHeight: h, TokenContract: contracts[0], Amount: sdkmath.NewInt(1),
-			Sender: extAddrs[0], Receiver: lib.EthKey(w.c.Seed, "c05sink", 0).Acc().String()}
+		return &crosschaintypes.MsgSendToFxClaim{EventNonce: n, BlockHeight: h, TokenContract: w.toks[0].Contract, Amount: sdkmath.NewInt(1),
+			Sender: w.exts[0], Receiver: lib.EthKey(w.c.Seed, "c05sink", 0).Acc().String()}
 	}
 }
 
@@ -510,7 +530,7 @@ func (w *World) apply(op Op) (accepted bool) {
 		})
 	case "BridgeCallP":
 		// the REAL bridgeCall precompile: msg.value of FX and/or ERC-20 tokens of the registered coin
-		args := crosschaintypes.BridgeCallArgs{DstChain: chainName, Refund: w.users[op.Refund].Hex(), To: common.HexToAddress(w.exts[op.To]),
+		args := crosschaintypes.BridgeCallArgs{DstChain: chainName, Refund: w.users[op.Refund].Hex(), To: common.HexToAddress(extAddrs[op.To]),
 			Data: op.Data, Value: big.NewInt(0), Memo: op.Memo}
 		for _, cn := range op.Coins {
 			args.Tokens = append(args.Tokens, w.erc20Of[int(cn[0])])
